@@ -310,7 +310,7 @@ def main():
     sys.exit(0)
 
 
-PROOF_LEVEL = {}
+PROOF_LEVEL = {'C03': True}
 EXPLAIN = {
     'C03': 'Every query function of models/feature_model.py under contract is proved equal to its specification function '
            '(rel_class, rels, feats, children, feature_class) for all well-formed heaps, unbounded in size.',
